@@ -167,6 +167,43 @@ AddTwinWorkload ==
          /\ ~\E j \in DOMAIN world.workloads : world.workloads[j].ns = ns /\ world.workloads[j].name = world.workloads[i].name
          /\ Step("AddTwinWorkload", <<i>>, [world EXCEPT !.workloads = Append(@, [world.workloads[i] EXCEPT !.ns = ns])])
 
+(* the twin together with everything that exposes the original: the Services, Ingresses and Routes of the original's       *)
+(* namespace are copied to the twin's namespace (same names), unless an object of that name exists there already            *)
+CopyTo(objs, from, to) ==
+  LET src == SelectSeq(objs, LAMBDA o : o.ns = from /\ ~\E k \in DOMAIN objs : objs[k].ns = to /\ objs[k].name = o.name)
+  IN objs \o [k \in DOMAIN src |-> [src[k] EXCEPT !.ns = to]]
+AddTwinWithExposure ==
+  /\ Ingr /\ Len(world.workloads) < MaxWl /\ Len(world.workloads) > 0 /\ Len(world.services) > 0 /\ Len(world.services) <= 2
+  /\ \E i \in Pick({j \in DOMAIN world.workloads : \E k \in DOMAIN world.services : world.services[k].ns = world.workloads[j].ns}) :
+       \E ns \in Pick({world.namespaces[k].name : k \in DOMAIN world.namespaces} \ {world.workloads[i].ns}) :
+         /\ ~\E j \in DOMAIN world.workloads : world.workloads[j].ns = ns /\ world.workloads[j].name = world.workloads[i].name
+         /\ Step("AddTwinWorkload", <<i>>,
+                 [world EXCEPT !.workloads = Append(@, [world.workloads[i] EXCEPT !.ns = ns]),
+                               !.services = CopyTo(@, world.workloads[i].ns, ns),
+                               !.ingresses = CopyTo(@, world.workloads[i].ns, ns),
+                               !.routes = CopyTo(@, world.workloads[i].ns, ns)])
+
+(* a second version of an application: same namespace, same labels, another name, the named container ports RENUMBERED       *)
+(* (2 <-> 4): whatever selects the first by labels selects both, and the same port name means another number                *)
+Renumber(ps) == [k \in DOMAIN ps |-> IF ps[k].name = "" THEN ps[k] ELSE [ps[k] EXCEPT !.port = IF @ = 2 THEN 4 ELSE 2]]
+AddSecondVersion ==
+  /\ Len(world.workloads) < MaxWl /\ Len(world.workloads) > 0
+  /\ \E i \in Pick({j \in DOMAIN world.workloads : \E k \in DOMAIN world.workloads[j].ports : world.workloads[j].ports[k].name # ""}) :
+       LET n == Len(world.workloads) + 1
+       IN Step("AddSecondVersion", <<i>>,
+               [world EXCEPT !.workloads = Append(@, [world.workloads[i] EXCEPT !.name = WlName(n) \o "v2", !.ports = Renumber(@)])])
+
+(* a bare Pod that carries the NAME of an existing controller workload of its namespace (another kind, other labels): two     *)
+(* distinct workloads -- ns/x[Pod] and ns/x[Deployment] -- whose pod names (x and x-1, x-2) do not collide                  *)
+AddPodNamedLikeController ==
+  /\ Len(world.workloads) < MaxWl /\ Len(world.workloads) > 0
+  /\ \E i \in Pick({j \in DOMAIN world.workloads : world.workloads[j].expr = "controller"}) : \E t \in Pick(WlCat) :
+       /\ ~\E j \in DOMAIN world.workloads : j # i /\ world.workloads[j].ns = world.workloads[i].ns /\ world.workloads[j].name = world.workloads[i].name
+       /\ t.labels # world.workloads[i].labels
+       /\ Step("AddPodNamedLikeController", <<i>>,
+               [world EXCEPT !.workloads = Append(@, [ns |-> world.workloads[i].ns, name |-> world.workloads[i].name, labels |-> t.labels,
+                                                     ports |-> t.ports, kind |-> "Pod", expr |-> "bare", replicas |-> -1, podCount |-> 1])])
+
 (* a workload that happens to carry the name the tool uses for its ingress-controller placeholder pod *)
 NameLikePlaceholder ==
   /\ Len(world.workloads) > 0 /\ Rarely(2)
@@ -180,6 +217,9 @@ ReExpressWorkload ==
     \E e \in Pick(ExprCat \ {[kind |-> world.workloads[i].kind, expr |-> world.workloads[i].expr,
                               replicas |-> world.workloads[i].replicas, podCount |-> world.workloads[i].podCount]}) :
       /\ Len(world.workloads) > 0
+      \* (a workload that shares its name with another workload of its namespace stays what it is: two CONTROLLERS of one
+      \*  name are the known finding D11 -- synthetic pod names collide -- which only the np-collide profile of C17 explores)
+      /\ ~\E j \in DOMAIN world.workloads : j # i /\ world.workloads[j].ns = world.workloads[i].ns /\ world.workloads[j].name = world.workloads[i].name
       /\ Step("ReExpressWorkload", <<i>>,
               [world EXCEPT !.workloads[i] = MkWl(@, @.name, e)])
 
@@ -268,6 +308,24 @@ AddCidrAgain ==
            Step("AddRule", <<i, dir>>,
                 [world EXCEPT !.netpols[i] =
                     WithRules(@, dir, Append(NPRules(@, dir), [peers |-> <<q>>, ports |-> ports]))])
+
+(* a rule of a policy of namespace X that selects pods by labels P WITHOUT a namespaceSelector, and a policy of another        *)
+(* namespace Y that selects the same pods by naming X explicitly (name label) with the same P: two spellings of one peer set *)
+AddCrossNamespaceSpelling ==
+  /\ Len(world.netpols) < MaxNP
+  /\ \E i \in Pick(DOMAIN world.netpols), dir \in Pick({"Ingress", "Egress"}) :
+       LET rs == NPRules(world.netpols[i], dir)
+           cands == {<<r, k>> \in (1..MaxRules) \X (1..3) :
+                       r \in DOMAIN rs /\ k \in DOMAIN rs[r].peers /\ rs[r].peers[k].kind = "pod" /\ rs[r].peers[k].nsNil /\ ~rs[r].peers[k].podNil}
+       IN /\ cands # {}
+          /\ \E c \in Pick(cands), ns \in Pick({"ns1", "ns2", "ns3"} \ {world.netpols[i].ns}), d2 \in Pick({"Ingress", "Egress"}) :
+               LET p == rs[c[1]].peers[c[2]]
+                   q == PodPeer(FALSE, MLSel(L1(NameKey, world.netpols[i].ns)), FALSE, p.podSel)
+                   n == Len(world.netpols) + 1
+                   rule == [peers |-> <<q>>, ports |-> <<NumPort(FALSE, "TCP", 4)>>]
+                   np == [ns |-> ns, name |-> NPName(n), podSel |-> EmptySel, typesNil |-> FALSE, types |-> <<d2>>,
+                          ingress |-> IF d2 = "Ingress" THEN <<rule>> ELSE <<>>, egress |-> IF d2 = "Egress" THEN <<rule>> ELSE <<>>]
+               IN Step("AddPolicy", <<n>>, [world EXCEPT !.netpols = Append(@, np)])
 
 (* (policy, direction) pairs that have a last rule satisfying P *)
 Dirs == {"Ingress", "Egress"}
@@ -435,7 +493,7 @@ ExplicitPolicyTypes ==
 
 AddRuleAgain == AddRule      \* listed twice: TLC's simulator picks uniformly among the disjuncts of Next
 AddRuleOnceMore == AddRule
-NPNext == AddRuleAgain \/ AddRuleOnceMore \/ AddCidrAgain \/ AddPolicyForNamedPort \/ AddHalfPolicy \/ AddWorkload \/ AddTwinWorkload \/ NameLikePlaceholder \/ RemoveWorkload \/ ReExpressWorkload \/ RelabelNamespace \/ AddPolicy \/ AddRule \/ AddPeer \/ AddPort
+NPNext == AddRuleAgain \/ AddRuleOnceMore \/ AddCidrAgain \/ AddCrossNamespaceSpelling \/ AddPolicyForNamedPort \/ AddHalfPolicy \/ AddWorkload \/ AddTwinWorkload \/ AddTwinWithExposure \/ AddSecondVersion \/ AddPodNamedLikeController \/ NameLikePlaceholder \/ RemoveWorkload \/ ReExpressWorkload \/ RelabelNamespace \/ AddPolicy \/ AddRule \/ AddPeer \/ AddPort
           \/ SetPolicyTypes \/ RemovePolicy \/ RespellPodSelAsIn \/ RespellPeerSelAsIn \/ SplitRange \/ SplitCidr
           \/ SplitPolicy \/ ExplicitPolicyTypes \/ MoveCidr \/ MoveCidrAgain \/ RemoveRule
 
